@@ -144,6 +144,16 @@ def shard_numpy(rec, reverse=False):
         want = "ok" if str(d) == str(s1) else "no"  # "exact match on the name, order, and dtype of all its fields"
         if got != want:
             rec.violation("struct-dtype", {"dtype": str(d)}, f"make_numpy_struct_dtype(s1) vs {d}: want {want} got {got}", mechanism="struct-dtype-" + got)
+    # the class NAME is only a label: two categories made with the same name keep their own dtype
+    La = jaxtyping.make_numpy_struct_dtype(s1, "Label")
+    Lb = jaxtyping.make_numpy_struct_dtype(s2, "Label")
+    for C, own, other in ((La, s1, s2), (Lb, s2, s1), (jaxtyping.make_numpy_struct_dtype(s1, "Label"), s1, s2)):
+        for d, want in ((own, "ok"), (other, "no")):
+            got = real.check(np.zeros((2,), dtype=d), C[np.ndarray, "..."])
+            rec.case(("numpy", "struct-same-name", str(d), want), True)
+            rec.count("triples.numpy")
+            if got != want:
+                rec.violation("struct-dtype", {"dtype": str(d), "same_name": "Label"}, f"two make_numpy_struct_dtype categories named 'Label': array of {d} -> {got}, expected {want}", mechanism="struct-category-looked-up-by-name")
     for bad in (np.dtype("float32"), np.dtype("U3"), "nope"):
         try:
             jaxtyping.make_numpy_struct_dtype(bad, "X")
